@@ -346,3 +346,109 @@ func Traces(out string) ([]TraceStack, error) {
 func TopProto(data []byte) (*profile.Profile, error) {
 	return profile.Parse(bytes.NewReader(data))
 }
+
+// CGNode is one cost line of a callgrind report (one graph node: pprof emits callgrind at address granularity).
+type CGNode struct {
+	Obj, File, Fn string
+	Addr          uint64
+	Line          int64
+	Flat          int64
+}
+
+// CGEdge is one call of a callgrind report.
+type CGEdge struct {
+	SrcFn, DstFn     string
+	SrcAddr, DstAddr uint64
+	DstLine          int64
+	W                int64
+}
+
+var (
+	cgKwRE   = regexp.MustCompile(`^(ob|fl|fn|cfl|cfn|cob|fi|fe)=(?:\((\d+)\)(?: (.*))?)?$`)
+	cgCostRE = regexp.MustCompile(`^(0x[0-9a-f]+|[+-]\d+|\*) (\d+|\*) (-?\d+)$`)
+	cgCallRE = regexp.MustCompile(`^calls=(\d+) (0x[0-9a-f]+|[+-]\d+|\*) (\d+)$`)
+)
+
+// Callgrind decodes a callgrind report as pprof writes it: name compression "(id) name" / "(id)",
+// positions absolute (0x..), relative to the previous node (+n / -n) or equal to it (*).
+func Callgrind(out string) ([]CGNode, []CGEdge, error) {
+	tables := map[string]map[string]string{"ob": {}, "fl": {}, "fn": {}}
+	tableOf := map[string]string{"ob": "ob", "cob": "ob", "fl": "fl", "cfl": "fl", "fi": "fl", "fe": "fl", "fn": "fn", "cfn": "fn"}
+	cur := map[string]string{}
+	var nodes []CGNode
+	var edges []CGEdge
+	var prev, here uint64
+	havePrev, haveHere := false, false
+	var pendingCall *CGEdge
+	decode := func(s string) (uint64, error) {
+		switch {
+		case s == "*":
+			if !havePrev {
+				return 0, fmt.Errorf("position * without a previous node")
+			}
+			return prev, nil
+		case strings.HasPrefix(s, "0x"):
+			return strconv.ParseUint(s[2:], 16, 64)
+		default:
+			if !havePrev {
+				return 0, fmt.Errorf("relative position %s without a previous node", s)
+			}
+			d, err := strconv.ParseInt(s, 10, 64)
+			return uint64(int64(prev) + d), err
+		}
+	}
+	for i, l := range strings.Split(strings.TrimSuffix(out, "\n"), "\n") {
+		switch {
+		case l == "" || strings.HasPrefix(l, "positions:") || strings.HasPrefix(l, "events:"):
+			continue
+		}
+		if m := cgKwRE.FindStringSubmatch(l); m != nil {
+			if m[2] == "" {
+				cur[m[1]] = "" // pprof writes a bare "fl=" / "fn=" for an entry without that name
+				continue
+			}
+			t := tables[tableOf[m[1]]]
+			name, defined := t[m[2]]
+			if strings.Contains(l, ") ") || strings.HasSuffix(l, ") ") {
+				name = m[3]
+				t[m[2]] = name
+			} else if !defined {
+				return nil, nil, fmt.Errorf("line %d: back-reference (%s) was never defined: %q", i+1, m[2], l)
+			}
+			cur[m[1]] = name
+			continue
+		}
+		if m := cgCallRE.FindStringSubmatch(l); m != nil {
+			a, err := decode(m[2])
+			if err != nil {
+				return nil, nil, fmt.Errorf("line %d: %v", i+1, err)
+			}
+			ln, _ := strconv.ParseInt(m[3], 10, 64)
+			pendingCall = &CGEdge{SrcFn: cur["fn"], DstFn: cur["cfn"], SrcAddr: here, DstAddr: a, DstLine: ln}
+			continue
+		}
+		if m := cgCostRE.FindStringSubmatch(l); m != nil {
+			cost, _ := strconv.ParseInt(m[3], 10, 64)
+			if pendingCall != nil {
+				pendingCall.W = cost
+				edges = append(edges, *pendingCall)
+				pendingCall = nil
+				continue
+			}
+			// the node's own line: from now on positions are relative to the node before this one until the next node
+			if haveHere {
+				prev, havePrev = here, true
+			}
+			a, err := decode(m[1])
+			if err != nil {
+				return nil, nil, fmt.Errorf("line %d: %v", i+1, err)
+			}
+			ln, _ := strconv.ParseInt(m[2], 10, 64)
+			here, haveHere = a, true
+			nodes = append(nodes, CGNode{Obj: cur["ob"], File: cur["fl"], Fn: cur["fn"], Addr: a, Line: ln, Flat: cost})
+			continue
+		}
+		return nil, nil, fmt.Errorf("line %d is not callgrind: %q", i+1, l)
+	}
+	return nodes, edges, nil
+}
